@@ -42,7 +42,8 @@ STYLES = {
 }
 PAIRS_QUICK = [("i", "i"), ("i", "b"), ("b", "u"), ("ib", "u"), ("cls", "i"), ("ibu", "i"), ("i", "cls"), ("i", "ib"), ("u", "ibu")]
 # "dfxp-single" / "dfxp-legacy": DFXP written by SinglePositioningDFXPWriter / LegacyDFXPWriter (read by the one DFXP reader)
-ROUTES = ["dfxp", "sami", "dfxp>sami", "sami>dfxp", "vtt", "dfxp>vtt", "sami>vtt", "dfxp-single", "dfxp-legacy", "sami>dfxp-legacy"]
+# "dfxp-inline": DFXPWriter(write_inline_positioning=True)
+ROUTES = ["dfxp", "sami", "dfxp>sami", "sami>dfxp", "vtt", "dfxp>vtt", "sami>vtt", "dfxp-single", "dfxp-legacy", "sami>dfxp-legacy", "dfxp-inline", "sami>dfxp-inline"]
 
 
 def bounds(tier):
@@ -257,7 +258,10 @@ def run_route(route, shape, spans, lay=None):
             if hop.startswith("dfxp"):
                 from pycaption.dfxp import extras
 
-                doc = shared.obj({"dfxp": pycaption.DFXPWriter, "dfxp-single": extras.SinglePositioningDFXPWriter, "dfxp-legacy": extras.LegacyDFXPWriter}[hop]).write(cs)
+                if hop == "dfxp-inline":
+                    doc = shared.obj(pycaption.DFXPWriter, write_inline_positioning=True).write(cs)
+                else:
+                    doc = shared.obj({"dfxp": pycaption.DFXPWriter, "dfxp-single": extras.SinglePositioningDFXPWriter, "dfxp-legacy": extras.LegacyDFXPWriter}[hop]).write(cs)
                 try:
                     parsers.parse_ttml(doc)
                 except parsers.ParseError as e:
